@@ -13,6 +13,7 @@
  *   C04_WITH_CERTS     C04_NCERT 0..2 certificate records with ids of C04_CERTID_LEN {n,n} bytes (needs env pki_model, tu types)
  *   C04_WITH_EXT       build an extender reply (needs env ext_seam, tus types):  C04_EXT_HAS_CHAIN 0/1, C04_EXT_NLINKS 0..4,
  *                      C04_EXT_DIRS (optional) concrete direction bit mask, C04_EXT_HAS_AGGRTIME 0/1, C04_EXT_INALG spec, C04_EXT_SIBALG {a,a,a,a}, C04_EXT_HAS_STATUS, C04_EXT_HAS_REQID
+ *                      C04_EXT_STATUS_VALUE / C04_EXT_REQID_VALUE (optional) expressions fixing the reply's status / request id
  *   C04_WITH_SIGDATA   give the calendar auth record PKI signature data: C04_SIGDATA_CERTID_LEN n (or -1: no cert id), C04_SIGVAL_LEN n
  */
 #ifndef VERIF_C04_BUILDER_H_
